@@ -47,7 +47,7 @@ NAMES = ["alpha", "beta", "gamma", "delta", "eps", "zeta", "eta", "theta"]
 @st.composite
 def template_program(draw):
     kind = draw(st.sampled_from(["kwargs", "percent-keys", "or-union", "merge-union", "typeddict", "protocol", "in-union",
-                                 "set-literal", "format-keys", "dict-union", "generic-protocol", "generic-protocol"]))
+                                 "set-literal", "format-keys", "dict-union", "generic-protocol", "generic-protocol", "collect", "collect"]))
     names = draw(st.lists(st.sampled_from(NAMES), min_size=3, max_size=6, unique=True))
     head = "from typing import *\nfrom typing_extensions import *\n"
     if kind == "generic-protocol":
@@ -57,6 +57,19 @@ def template_program(draw):
         t = draw(st.sampled_from(["int", "str", "float", "bytes"]))
         u = draw(st.sampled_from(["int", "str", "float", "list[int]", "list[str]"]))
         return head + f"def want(x: {proto}[{t}]) -> None: ...\ndef g(i: {u}):\n    want(i)\n"
+    if kind == "collect":
+        # surplus positional / keyword arguments of several types collected into *args / **kwargs, alone and
+        # together with *sequence / **mapping arguments; the collected type appears in the mismatch message
+        lits = draw(st.lists(st.sampled_from(["1", "2.0", "None", "b''", "'s'", "[1]", "(1,)", "{1}", "object()"]), min_size=2, max_size=5, unique=True))
+        at, kt = draw(st.sampled_from(["int", "str", "bytes", "list[int]"])), draw(st.sampled_from(["int", "str", "bytes", "list[int]"]))
+        et, sq = draw(st.sampled_from(["bytes", "int", "str", "float"])), draw(st.sampled_from(["bytes", "int", "str", "float"]))
+        kws = ", ".join(f"{n}={l}" for n, l in zip(names, lits))
+        pos = ", ".join(lits)
+        return head + (f"def collect(x: int, *args: {at}, **kwargs: {kt}) -> None: ...\n"
+                       f"def only_kw(x: int, **kwargs: {kt}) -> None: ...\n"
+                       f"def g(extra: dict[str, {et}], seq: list[{sq}]) -> None:\n"
+                       f"    collect(1, {kws})\n    collect(1, {kws}, **extra)\n    only_kw(1, {kws}, **extra)\n"
+                       f"    collect(1, {pos})\n    collect(1, {pos}, *seq)\n    collect(1, {pos}, *seq, {kws}, **extra)\n")
     if kind == "kwargs":
         return head + "def f(a: int) -> None: ...\ndef g():\n    f(1, " + ", ".join(f"{n}=1" for n in names) + ")\n"
     if kind == "percent-keys":
